@@ -106,8 +106,8 @@ def expand(g):
     out = []
     for i in inst:
         h = dict(g)
-        h['name'] = g['name'] + '@' + ','.join('%s=%s' % kv for kv in sorted(i.items()) if kv[0] not in ('tier', 'timeout', 'solver', 'unwind', 'unwindset'))
-        h['defines'] = list(g['defines']) + ['-D%s=%s' % kv for kv in i.items() if kv[0] not in ('tier', 'timeout', 'solver', 'unwind', 'unwindset')]
+        h['name'] = g['name'] + '@' + ','.join('%s=%s' % kv for kv in sorted(i.items()) if kv[0] not in ('tier', 'timeout', 'solver', 'unwind', 'unwindset') and not kv[0].startswith('_'))
+        h['defines'] = list(g['defines']) + ['-D%s=%s' % (kv[0].lstrip('_'), kv[1]) for kv in i.items() if kv[0] not in ('tier', 'timeout', 'solver', 'unwind', 'unwindset')]
         for k in ('tier', 'timeout', 'solver', 'unwind', 'unwindset'):
             if k in i:
                 h[k] = i[k]
